@@ -250,6 +250,10 @@ def main(argv=None):
         return 2
     if argv[0] == "replay":
         return cmd_replay(argv[1], quiet="--quiet" in argv)
+    if argv[0] == "_fresh":
+        from . import apisim
+
+        return apisim.fresh_main(argv[1])
     if argv[0] == "_digests":
         from . import selftest
 
